@@ -1,6 +1,19 @@
 /-
-  ICG.Driver.Bits — line protocol of domain `bits` (stub: to be filled in by the domain's owner).
+  ICG.Driver.Bits — line protocol of domain `bits`: every operator and enumeration of
+  ICG.Model.Bits and the predicates of ICG.Model.Predicates.  Stateless.
+
+    bits size c | players c | from <players> | single p | grand n | all n
+    bits and a b | or a b | sub a b | contains a b | eq a b | disjoint a b
+    bits andp a p | orp a p | subp a p | addp a p | hasplayer a p          (int operand = a player)
+    bits inverted c n
+    bits subobj c | superobj c n | subid c n | superid c n | playersid c n | sizeid c n
+    bits struct n c | sorted n | minimal n | exclude ex <coalitions>
+    bits issa n rtol atol <values> | ismono n <values> | issam n rtol atol <values> | supermod n tol <values>
+
+  Answers: naturals, `0/1` for booleans, comma separated lists (`-` empty), `err:<kind>`;
+  `supermod` answers `none` or `T,S,i`.
 -/
+import ICG.Model.Predicates
 import ICG.Driver.Proto
 namespace ICG.Driver.Bits
 open ICG ICG.Proto
@@ -8,7 +21,97 @@ open ICG ICG.Proto
 abbrev State := Unit
 def init : State := ()
 
+def showBool (b : Bool) : String := if b then "1" else "0"
+def showInts (l : List Int) : String := showList toString l
+
+def showE {β} (f : β → String) : Except Err β → String
+  | .ok x => f x
+  | .error e => toString e
+
+/-- values of a complete game on `n` players: exactly `2^n` numbers (anything else is not an input the
+    real predicates can see — `get_values()` always has 2^n rows). Rows `≥ 2^n` are never read. -/
+def valuesFn? (n : Nat) (vals : List Rat) : Option (Nat → Rat) :=
+  if vals.length = 2 ^ n then
+    let a := vals.toArray
+    some (fun i => if h : i < a.size then a[i] else 0)
+  else none
+
+def nat1 (s : State) (a : String) (f : Nat → String) : State × String :=
+  match a.toNat? with
+  | some a => (s, f a)
+  | none => (s, "bad-op")
+
+def nat2 (s : State) (a b : String) (f : Nat → Nat → String) : State × String :=
+  match a.toNat?, b.toNat? with
+  | some a, some b => (s, f a b)
+  | _, _ => (s, "bad-op")
+
 def handle (s : State) : List String → State × String
+  | ["size", c] => nat1 s c fun c => toString (size c)
+  | ["players", c] => nat1 s c fun c => showNats (players c)
+  | ["from", ps] =>
+    match parseNats? ps with
+    | some l => (s, toString (fromPlayers l))
+    | none => (s, "bad-op")
+  | ["single", p] => nat1 s p fun p => toString (singleton p)
+  | ["grand", n] => nat1 s n fun n => toString (grand n)
+  | ["all", n] => nat1 s n fun n => showNats (allCoalitions n)
+  | ["and", a, b] => nat2 s a b fun a b => toString (inter a b)
+  | ["or", a, b] => nat2 s a b fun a b => toString (union a b)
+  | ["sub", a, b] => nat2 s a b fun a b => toString (diff a b)
+  | ["contains", a, b] => nat2 s a b fun a b => showBool (contains a b)
+  | ["eq", a, b] => nat2 s a b fun a b => showBool (a == b)
+  | ["disjoint", a, b] => nat2 s a b fun a b => showBool (disjoint a b)
+  | ["andp", a, p] => nat2 s a p fun a p => toString (inter a (singleton p))
+  | ["orp", a, p] => nat2 s a p fun a p => toString (union a (singleton p))
+  | ["subp", a, p] => nat2 s a p fun a p => toString (removePlayer a p)
+  | ["addp", a, p] => nat2 s a p fun a p => toString (addPlayer a p)
+  | ["hasplayer", a, p] => nat2 s a p fun a p => showBool (hasPlayer a p)
+  | ["inverted", c, n] => nat2 s c n fun c n => toString (inverted c n)
+  | ["subobj", c] => nat1 s c fun c => showNats (subCoalitionsObj c)
+  | ["superobj", c, n] => nat2 s c n fun c n => showNats (superCoalitionsObj c n)
+  | ["subid", c, n] => nat2 s c n fun c n => showE showNats (subCoalitionsId c n)
+  | ["superid", c, n] => nat2 s c n fun c n => showE showNats (superCoalitionsId c n)
+  | ["playersid", c, n] => nat2 s c n fun c n => showE showNats (Pred.playersIdE c n)
+  | ["sizeid", c, n] => nat2 s c n fun c n => showE toString (Pred.sizeIdE c n)
+  | ["struct", n, c] => nat2 s n c fun n c => showInts ((allCoalitions n).map (coalStructure n c))
+  | ["sorted", n] => nat1 s n fun n => showNats (allSorted n)
+  | ["minimal", n] => nat1 s n fun n => showNats (minimalCoalitions n)
+  | ["exclude", ex, l] =>
+    match ex.toNat?, parseNats? l with
+    | some ex, some l => (s, showNats (excludeCoalition ex l))
+    | _, _ => (s, "bad-op")
+  | ["issa", n, rtol, atol, vals] =>
+    match n.toNat?, parseRat? rtol, parseRat? atol, parseRats? vals with
+    | some n, some rtol, some atol, some vals =>
+      match valuesFn? n vals with
+      | some v => (s, showE showBool (Pred.isSuperadditive n v rtol atol))
+      | none => (s, "bad-op")
+    | _, _, _, _ => (s, "bad-op")
+  | ["ismono", n, vals] =>
+    match n.toNat?, parseRats? vals with
+    | some n, some vals =>
+      match valuesFn? n vals with
+      | some v => (s, showE showBool (Pred.isMonotoneDecreasing n v))
+      | none => (s, "bad-op")
+    | _, _ => (s, "bad-op")
+  | ["issam", n, rtol, atol, vals] =>
+    match n.toNat?, parseRat? rtol, parseRat? atol, parseRats? vals with
+    | some n, some rtol, some atol, some vals =>
+      match valuesFn? n vals with
+      | some v => (s, showE showBool (Pred.isSam n v rtol atol))
+      | none => (s, "bad-op")
+    | _, _, _, _ => (s, "bad-op")
+  | ["supermod", n, tol, vals] =>
+    match n.toNat?, parseRat? tol, parseRats? vals with
+    | some n, some tol, some vals =>
+      match valuesFn? n vals with
+      | some v =>
+        (s, match Pred.checkSupermodularity n v tol with
+            | none => "none"
+            | some (T, S, i) => s!"{T},{S},{i}")
+      | none => (s, "bad-op")
+    | _, _, _ => (s, "bad-op")
   | _ => (s, "bad-op")
 
 end ICG.Driver.Bits
